@@ -4,7 +4,9 @@
      src/subiterator/component_subiterator.rs  ComponentSubIterator
      src/iterator/module_iterator.rs           ModuleIterator::{new, next, curr_loc, curr_op, reset}
      src/iterator/component_iterator.rs        ComponentIterator::{new, next, curr_loc, curr_op, reset}
-   *as the code is today*.  Every place where the Rust indexes a vector out of bounds / unwraps a None
+   as the code is after the repair of D12 (the skip list is applied before the function cursor is sized; an
+   empty traversal simply ends) and D13 (modules with nothing to visit are stepped over; reset re-enters
+   module 0 with its own skip list).  Every place where the Rust can still index a vector out of bounds
    is an explicit [Panic] outcome.  Inputs are abstract: a module is its [get_func_metadata()] list
    (function id, number of instructions) of local functions, plus a skip list of function ids.
    No proofs in this file. *)
@@ -32,72 +34,51 @@ Definition f_next (f : fsub) : fsub * bool :=
 (* ModuleSubIterator *)
 Record msub := mkM { m_idx : nat; m_meta : meta; m_fi : fsub; m_skip : list N }.
 
-(* self.metadata[self.curr_idx] *)
-Definition get_curr_func (s : msub) : res (N * N) :=
-  match nth_error (m_meta s) (m_idx s) with Some x => Ok x | None => Panic end.
+Definition NOFUNC : N := 4294967295.               (* FunctionID(u32::MAX), the placeholder of get_curr_func *)
 
-(* the while loop of handle_skips, run over the suffix [l] of the metadata that starts at [idx]:
-   while skip.contains(fid) { idx += 1; if idx >= len { break }; fid = metadata[idx].0 } *)
-Fixpoint skip_from (skip : list N) (l : meta) (idx : nat) : nat :=
+(* is_empty: curr_idx >= metadata.len() -- nothing to visit *)
+Definition m_is_empty (s : msub) : bool := Nat.leb (length (m_meta s)) (m_idx s).
+
+(* metadata.get(curr_idx).copied().unwrap_or((FunctionID(u32::MAX), 0)) *)
+Definition get_curr_func (s : msub) : N * N := nth (m_idx s) (m_meta s) (NOFUNC, 0).
+
+(* next_unskipped(from) = (from..len).find(|idx| !skip.contains(metadata[idx].0)), run over the suffix
+   [l] of the metadata that starts at [idx] *)
+Fixpoint find_unskipped (skip : list N) (l : meta) (idx : nat) : option nat :=
   match l with
-  | [] => idx
-  | (fid, _) :: l' => if memN fid skip then skip_from skip l' (S idx) else idx
+  | [] => None
+  | (fid, _) :: l' => if memN fid skip then find_unskipped skip l' (S idx) else Some idx
   end.
-
-(* handle_skips: the first statement reads metadata[curr_idx] and panics when curr_idx >= len *)
-Definition handle_skips (s : msub) : res msub :=
-  match skipn (m_idx s) (m_meta s) with
-  | [] => Panic
-  | l => Ok (mkM (skip_from (m_skip s) l (m_idx s)) (m_meta s) (m_fi s) (m_skip s))
-  end.
-
-(* ModuleSubIterator::new: reads metadata[0] first, builds the function cursor with *function 0's*
-   length and only then applies the skip list *)
-Definition m_new (mt : meta) (skip : list N) : res msub :=
-  match mt with
-  | [] => Panic
-  | (_, n0) :: _ => handle_skips (mkM 0 mt (f_new n0) skip)
-  end.
+Definition next_unskipped (s : msub) (from : nat) : option nat :=
+  find_unskipped (m_skip s) (skipn from (m_meta s)) from.
 
 (* (func id, instr idx, is_end) *)
-Definition m_curr_loc (s : msub) : res (N * N * bool) :=
-  match get_curr_func s with
-  | Panic => Panic
-  | Ok (fid, _) => Ok (fid, f_cur (m_fi s), f_is_end (m_fi s) (f_cur (m_fi s)))
+Definition m_curr_loc (s : msub) : N * N * bool :=
+  (fst (get_curr_func s), f_cur (m_fi s), f_is_end (m_fi s) (f_cur (m_fi s))).
+
+(* reset: curr_idx = next_unskipped(0).unwrap_or(len); func_iterator.reset(get_curr_func().1) *)
+Definition m_reset (s : msub) : msub :=
+  let idx := match next_unskipped s 0 with Some i => i | None => length (m_meta s) end in
+  let s1 := mkM idx (m_meta s) (m_fi s) (m_skip s) in
+  mkM idx (m_meta s) (mkF 0 (snd (get_curr_func s1))) (m_skip s).
+
+(* new: the cursor is built empty and then reset: the skip list is applied before the function cursor is sized *)
+Definition m_new (mt : meta) (skip : list N) : msub := m_reset (mkM 0 mt (f_new 0) skip).
+
+Definition m_next_function (s : msub) : msub * bool :=
+  match next_unskipped s (S (m_idx s)) with
+  | Some idx =>
+      let s1 := mkM idx (m_meta s) (m_fi s) (m_skip s) in
+      (mkM idx (m_meta s) (f_new (snd (get_curr_func s1))) (m_skip s), true)
+  | None => (s, false)
   end.
 
-(* reset: curr_idx = 0; handle_skips(); func_iterator.reset(get_curr_func().1) *)
-Definition m_reset (s : msub) : res msub :=
-  match handle_skips (mkM 0 (m_meta s) (m_fi s) (m_skip s)) with
-  | Panic => Panic
-  | Ok s1 => match get_curr_func s1 with
-             | Panic => Panic
-             | Ok (_, n) => Ok (mkM (m_idx s1) (m_meta s1) (mkF 0 n) (m_skip s1))
-             end
-  end.
-Definition m_reset_from_comp (s : msub) (mt : meta) : res msub :=
-  m_reset (mkM (m_idx s) mt (m_fi s) (m_skip s)).
+Definition m_has_next_function (s : msub) : bool :=
+  match next_unskipped s (S (m_idx s)) with Some _ => true | None => false end.
 
-Definition m_has_next_function (s : msub) : bool := Nat.ltb (S (m_idx s)) (length (m_meta s)).
-
-Definition m_next_function (s : msub) : res (msub * bool) :=
-  if negb (m_has_next_function s) then Ok (s, false)
-  else match handle_skips (mkM (S (m_idx s)) (m_meta s) (m_fi s) (m_skip s)) with
-       | Panic => Panic
-       | Ok s1 =>
-           if Nat.ltb (m_idx s1) (length (m_meta s1))
-           then match get_curr_func s1 with
-                | Panic => Panic
-                | Ok (_, n) => Ok (mkM (m_idx s1) (m_meta s1) (f_new n) (m_skip s1), true)
-                end
-           else Ok (s1, false)
-       end.
-
-Definition m_has_next (s : msub) : bool := f_has_next (m_fi s) || m_has_next_function s.
-
-Definition m_next (s : msub) : res (msub * bool) :=
+Definition m_next (s : msub) : msub * bool :=
   if f_has_next (m_fi s)
-  then let '(f', b) := f_next (m_fi s) in Ok (mkM (m_idx s) (m_meta s) f' (m_skip s), b)
+  then let '(f', b) := f_next (m_fi s) in (mkM (m_idx s) (m_meta s) f' (m_skip s), b)
   else m_next_function s.
 
 (* ------------------------------------------------------------------------------------------ *)
@@ -107,101 +88,82 @@ Definition m_next (s : msub) : res (msub * bool) :=
 Definition body_len (mt : meta) (fid : N) : option N :=
   match find (fun x => N.eqb (fst x) fid) mt with Some x => Some (snd x) | None => None end.
 
-(* curr_op: Ok true = Some(op), Ok false = None *)
+(* curr_op: Ok true = Some(op), Ok false = None (nothing to visit) *)
 Definition mi_curr_op (s : msub) : res bool :=
-  match m_curr_loc s with
-  | Panic => Panic
-  | Ok (fid, i, _) =>
-      match body_len (m_meta s) fid with
-      | None => Panic
-      | Some n => if i <? n then Ok true else Panic
-      end
-  end.
+  if m_is_empty s then Ok false
+  else let '(fid, i, _) := m_curr_loc s in
+       match body_len (m_meta s) fid with
+       | None => Panic
+       | Some n => if i <? n then Ok true else Panic
+       end.
 
 (* next: match sub.next() { false => None, true => self.curr_op() } *)
 Definition mi_next (s : msub) : res (msub * bool) :=
-  match m_next s with
-  | Panic => Panic
-  | Ok (s', false) => Ok (s', false)
-  | Ok (s', true) => match mi_curr_op s' with Panic => Panic | Ok b => Ok (s', b) end
-  end.
+  let '(s', b) := m_next s in
+  if b then match mi_curr_op s' with Panic => Panic | Ok b' => Ok (s', b') end else Ok (s', false).
 
 (* ------------------------------------------------------------------------------------------ *)
 (* ComponentSubIterator.  The two HashMaps are lists indexed by module position; a module without
-   an entry in the skip map has the empty skip list ([nth _ _ []]). *)
+   an entry has the empty list ([nth _ _ []] = get(..).cloned().unwrap_or_default()). *)
 Record csub := mkC { c_mod : nat; c_num : nat; c_it : msub; c_metas : list meta; c_skips : list (list N) }.
 
-Definition c_new (metas : list meta) (skips : list (list N)) : res csub :=
-  match nth_error metas 0 with
-  | None => Panic                                   (* metadata.get(&curr_mod).unwrap() *)
-  | Some mt => match m_new mt (nth 0 skips []) with
-               | Panic => Panic
-               | Ok it => Ok (mkC 0 (length metas) it metas skips)
-               end
-  end.
+(* enter_module: the module cursor of the current module, with that module's skip list *)
+Definition c_enter (c : csub) : csub :=
+  mkC (c_mod c) (c_num c) (m_new (nth (c_mod c) (c_metas c) []) (nth (c_mod c) (c_skips c) [])) (c_metas c) (c_skips c).
 
-(* reset: curr_mod = 0; mod_iterator.reset_from_comp_iterator(metadata[0]) -- the module
-   sub-iterator keeps the skip list it already has *)
-Definition c_reset (c : csub) : res csub :=
-  match nth_error (c_metas c) 0 with
-  | None => Panic
-  | Some mt => match m_reset_from_comp (c_it c) mt with
-               | Panic => Panic
-               | Ok it => Ok (mkC 0 (c_num c) it (c_metas c) (c_skips c))
-               end
-  end.
+Definition c_next_module (c : csub) : csub * bool :=
+  if Nat.leb (c_num c) (c_mod c) then (c, false)
+  else let cm := S (c_mod c) in
+       let c1 := mkC cm (c_num c) (c_it c) (c_metas c) (c_skips c) in
+       if Nat.ltb cm (c_num c) then (c_enter c1, true) else (c1, false).
 
-Definition c_next_module (c : csub) : res (csub * bool) :=
-  let cm := S (c_mod c) in
-  if Nat.ltb cm (c_num c)
-  then match nth_error (c_metas c) cm with
-       | None => Panic
-       | Some mt => match m_new mt (nth cm (c_skips c) []) with
-                    | Panic => Panic
-                    | Ok it => Ok (mkC cm (c_num c) it (c_metas c) (c_skips c), true)
-                    end
-       end
-  else Ok (mkC cm (c_num c) (c_it c) (c_metas c) (c_skips c), false).
+(* skip_empty_modules: while mod_iterator.is_empty() { if !next_module() { return false } } true.
+   Every iteration advances curr_mod, so num_mods - curr_mod + 1 rounds suffice. *)
+Fixpoint c_skip_empty_go (fuel : nat) (c : csub) : csub * bool :=
+  match fuel with
+  | O => (c, false)
+  | S fuel' =>
+      if m_is_empty (c_it c)
+      then let '(c', b) := c_next_module c in if b then c_skip_empty_go fuel' c' else (c', false)
+      else (c, true)
+  end.
+Definition c_skip_empty (c : csub) : csub * bool := c_skip_empty_go (S (c_num c - c_mod c)) c.
+
+Definition c_new (metas : list meta) (skips : list (list N)) : csub :=
+  fst (c_skip_empty (c_enter (mkC 0 (length metas) (m_new [] []) metas skips))).
+
+(* reset: curr_mod = 0; enter_module(); skip_empty_modules() *)
+Definition c_reset (c : csub) : csub :=
+  fst (c_skip_empty (c_enter (mkC 0 (c_num c) (c_it c) (c_metas c) (c_skips c)))).
 
 Definition c_end (c : csub) : bool := Nat.eqb (c_mod c) (c_num c).
 
 (* (module idx, func id, instr idx, is_end) *)
-Definition c_curr_loc (c : csub) : res (N * N * N * bool) :=
-  match m_curr_loc (c_it c) with
-  | Panic => Panic
-  | Ok (fid, i, e) => Ok (N.of_nat (c_mod c), fid, i, e)
-  end.
+Definition c_curr_loc (c : csub) : N * N * N * bool :=
+  let '(fid, i, e) := m_curr_loc (c_it c) in (N.of_nat (c_mod c), fid, i, e).
 
-(* next: if mod_iterator.has_next() { mod_iterator.next() } else { next_module() } *)
-Definition c_next (c : csub) : res (csub * bool) :=
-  if m_has_next (c_it c)
-  then match m_next (c_it c) with
-       | Panic => Panic
-       | Ok (it, b) => Ok (mkC (c_mod c) (c_num c) it (c_metas c) (c_skips c), b)
-       end
-  else c_next_module c.
+(* next: if mod_iterator.next() { return true }  next_module() && skip_empty_modules() *)
+Definition c_next (c : csub) : csub * bool :=
+  let '(it, b) := m_next (c_it c) in
+  let c0 := mkC (c_mod c) (c_num c) it (c_metas c) (c_skips c) in
+  if b then (c0, true)
+  else let '(c1, b1) := c_next_module c0 in if b1 then c_skip_empty c1 else (c1, false).
 
 (* ComponentIterator *)
 Definition ci_curr_op (c : csub) : res bool :=
   if c_end c then Ok false
-  else match c_curr_loc c with
-       | Panic => Panic
-       | Ok (_, fid, i, _) =>
-           match nth_error (c_metas c) (c_mod c) with
-           | None => Panic                              (* comp.modules[mod_idx] *)
-           | Some mt => match body_len mt fid with
-                        | None => Panic
-                        | Some n => if i <? n then Ok true else Panic
-                        end
-           end
+  else let '(_, fid, i, _) := c_curr_loc c in
+       match nth_error (c_metas c) (c_mod c) with
+       | None => Panic                              (* comp.modules[mod_idx] *)
+       | Some mt => match body_len mt fid with
+                    | None => Panic
+                    | Some n => if i <? n then Ok true else Panic
+                    end
        end.
 
 Definition ci_next (c : csub) : res (csub * bool) :=
-  match c_next c with
-  | Panic => Panic
-  | Ok (c', false) => Ok (c', false)
-  | Ok (c', true) => match ci_curr_op c' with Panic => Panic | Ok b => Ok (c', b) end
-  end.
+  let '(c', b) := c_next c in
+  if b then match ci_curr_op c' with Panic => Panic | Ok b' => Ok (c', b') end else Ok (c', false).
 
 (* ------------------------------------------------------------------------------------------ *)
 (* The call script the harness runs against the real iterators, over an abstract iterator. *)
@@ -283,9 +245,9 @@ Definition run {S} (M : mach S) (fuel : nat) (k : option nat) (probe : bool) (in
 
 Definition MI : mach msub :=
   mkMach mi_curr_op
-         (fun s => match m_curr_loc s with Panic => Panic | Ok (f, i, e) => Ok (0, f, i, e) end)
-         mi_next m_reset.
-Definition CI : mach csub := mkMach ci_curr_op c_curr_loc ci_next c_reset.
+         (fun s => let '(f, i, e) := m_curr_loc s in Ok (0, f, i, e))
+         mi_next (fun s => Ok (m_reset s)).
+Definition CI : mach csub := mkMach ci_curr_op (fun c => Ok (c_curr_loc c)) ci_next (fun c => Ok (c_reset c)).
 
 Definition total_instrs (mt : meta) : N := fold_right (fun x a => snd x + a) 0 mt.
 Definition fuel_of (mt : meta) : nat := S (S (N.to_nat (total_instrs mt))).
@@ -293,6 +255,6 @@ Definition fuel_of_comp (metas : list meta) : nat :=
   S (S (N.to_nat (fold_right (fun mt a => total_instrs mt + a) 0 metas))).
 
 Definition mi_run (mt : meta) (skip : list N) (k : option nat) (probe : bool) : list ev :=
-  run MI (fuel_of mt) k probe (m_new mt skip).
+  run MI (fuel_of mt) k probe (Ok (m_new mt skip)).
 Definition ci_run (metas : list meta) (skips : list (list N)) (k : option nat) (probe : bool) : list ev :=
-  run CI (fuel_of_comp metas) k probe (c_new metas skips).
+  run CI (fuel_of_comp metas) k probe (Ok (c_new metas skips)).
